@@ -1388,6 +1388,9 @@ class Exec:
             if isinstance(other, Val) and other.ty is TNone:
                 return z3.Not(o.present)
             raise OutOfSubset('== on optional value other than None')
+        if (isinstance(a, SObj) and isinstance(b, Val) and b.ty is TNone) or \
+                (isinstance(b, SObj) and isinstance(a, Val) and a.ty is TNone):
+            return z3.BoolVal(False)
         if isinstance(a, PyTuple) and isinstance(b, PyTuple):
             if len(a.items) != len(b.items):
                 return z3.BoolVal(False)
@@ -1543,6 +1546,11 @@ class Exec:
         raise OutOfSubset(f'subscript of {base} at line {n.lineno}')
 
     def do_slice(self, base, sl, st, spec, n):
+        h = self.ms.intrinsics.get('slice')
+        if h is not None:
+            r = h(self, st, [base, sl], {}, n)
+            if r is not NotImplemented:
+                return r
         if sl.step is not None:
             raise OutOfSubset('slice with step')
         lo = self.to_term(self.eval(sl.lower, st, spec), TInt, st) if sl.lower is not None else None
@@ -1564,6 +1572,9 @@ class Exec:
 
     def ex_Attribute(self, n, st, spec):
         base = self.eval(n.value, st, spec)
+        if isinstance(base, OptVal):
+            self.safety(st, base.present, f'attribute of a value that may be None (line {n.lineno})', n, spec)
+            base = base.value
         h = self.ms.intrinsics.get('attr:' + n.attr)
         if h is not None:
             r = h(self, st, [base], {}, n)
